@@ -4,7 +4,8 @@ import NibabelModel.Generated.C10Codes
 import Driver.Util
 /-! Line-protocol driver for C10: `C10 <op> <args...>` -> one observable line.
 
-    hdr   <cls> <native> <e|?> <hex>     WrapStruct from bytes (explicit or guessed byte order)
+    hdr   <cls> <native> <e|?> <to|_> <hex>   WrapStruct from bytes (byte order spelled with any endian_codes alias,
+                                         or guessed), as_byteswapped() and as_byteswapped(<to>)
     chk   <cls> <e> <hex>                check_fix, check_fix again, check_only
     dt    <table> <code>                 data type code table row + reverse lookup
     codec <e> <w> <v>                    byte codec
@@ -79,16 +80,41 @@ def ctorVals (c : ClsSpec) (L : Layout) (e : Endian) (bs : List Byte) : List (Li
   let v := parse L e bs
   if isMgh c then mghNormalise L v else v
 
-def handleHdr (c : ClsSpec) (L : Layout) (native : Endian) (e? : Option Endian) (bs0 : List Byte) : String :=
+/-- endianness argument as spelled by the caller: `?` = None (guess), else through `endian_codes` -/
+inductive EArg where
+  | guess
+  | code (e : Endian)
+  | keyError
+
+def parseEArg (s : String) : EArg :=
+  if s = "?" then .guess else
+  match endianOf? Gen.endianAliases s with
+  | some e => .code e
+  | none => .keyError
+
+def showTo (c : ClsSpec) (L : Layout) (h : Hdr) (to : String) : String :=
+  if to = "_" then "" else
+  match endianOf? Gen.endianAliases to with
+  | none => " to=ERR:KeyError"
+  | some t =>
+    if isMgh c && t != .be then " to=ERR:ValueError" else
+    let r := asByteswappedTo L h (some t)
+    " to=" ++ showEndian r.e ++ ":" ++ toHex (binaryblock L r) ++ ":" ++ b01 (r.vals == h.vals) ++
+      b01 (hdrEq L h r) ++ b01 (hdrEq L r h)
+
+def handleHdr (c : ClsSpec) (L : Layout) (native : Endian) (ea : EArg) (to : String) (bs0 : List Byte) : String :=
   match ctorBytes c L bs0 with
   | none => "ERR:WrapStructError"
   | some bs =>
-    let e? := match e? with
-      | some e => some e
-      | none => guessEndian L c.guess native bs
+    let e? : Except String Endian := match ea with
+      | .code e => .ok e
+      | .keyError => .error "ERR:KeyError"
+      | .guess => match guessEndian L c.guess native bs with
+          | some e => .ok e
+          | none => .error "bad-op"
     match e? with
-    | none => "bad-op"
-    | some e =>
+    | .error msg => msg
+    | .ok e =>
       let h : Hdr := ⟨e, ctorVals c L e bs⟩
       let bb := binaryblock L h
       let cp := copy L h
@@ -98,8 +124,8 @@ def handleHdr (c : ClsSpec) (L : Layout) (native : Endian) (e? : Option Endian) 
         let s := asByteswapped L h
         base ++ " sw=" ++ showEndian s.e ++ ":" ++ toHex (binaryblock L s) ++
           " swvals=" ++ b01 (s.vals == h.vals) ++ " eq=" ++ b01 (hdrEq L h s) ++ b01 (hdrEq L s h) ++
-          " back=" ++ b01 (binaryblock L (asByteswapped L s) == bb)
-      else base ++ " sw=NA"
+          " back=" ++ b01 (binaryblock L (asByteswapped L s) == bb) ++ showTo c L h to
+      else base ++ " sw=NA" ++ showTo c L h to
 
 def handleChk (c : ClsSpec) (L : Layout) (e : Endian) (bs0 : List Byte) : String :=
   match ctorBytes c L bs0 with
@@ -114,24 +140,22 @@ def handleChk (c : ClsSpec) (L : Layout) (e : Endian) (bs0 : List Byte) : String
       " same=" ++ b01 (bb2 == bb1) ++ " ro=" ++ showReports false ro
 
 def handle : List String → String
-  | ["hdr", cls, native, e, hex] =>
+  | ["hdr", cls, native, e, to, hex] =>
       match Gen.classOf? cls, parseEndian? native, parseHex? hex with
       | some c, some native, some bs =>
+          if native != Gen.nativeCode then "bad-op" else    -- the alias table is this machine's
           match Gen.layoutOf? c.layout with
           | none => "bad-op"
-          | some L =>
-            if e = "?" then handleHdr c L native none bs
-            else match parseEndian? e with
-              | some e => handleHdr c L native (some e) bs
-              | none => "bad-op"
+          | some L => handleHdr c L native (parseEArg e) to bs
       | _, _, _ => "bad-op"
   | ["chk", cls, e, hex] =>
-      match Gen.classOf? cls, parseEndian? e, parseHex? hex with
-      | some c, some e, some bs =>
-          match Gen.layoutOf? c.layout with
-          | none => "bad-op"
-          | some L => handleChk c L e bs
-      | _, _, _ => "bad-op"
+      match Gen.classOf? cls, parseHex? hex with
+      | some c, some bs =>
+          match Gen.layoutOf? c.layout, parseEArg e with
+          | some L, .code e => handleChk c L e bs
+          | some _, .keyError => "ERR:KeyError"
+          | _, _ => "bad-op"
+      | _, _ => "bad-op"
   | ["dt", table, code] =>
       match Gen.dtTables.find? (·.1 == table), code.toInt? with
       | some (_, t), some code =>
